@@ -406,32 +406,22 @@ Qed.
 
 (* ---------------- what the https events carry for an encoded hello ---------------- *)
 Lemma recorded_encode h :
-  wf_hello h = true -> negotiable h = true -> MIN_VERSION <= h_vers h ->
+  wf_hello h = true ->
   recorded (encode_hello h) = Ok (Some (ja3_string (info_of h), spec_sni h)).
-Proof.
-  intros W Ng V. unfold recorded. rewrite parse_encode by exact W.
-  unfold negotiable in Ng. apply andb_true_iff in Ng as [C R].
-  cbn [info_of i_vers i_comp i_reneg i_sni] in *.
-  replace (h_vers h <? MIN_VERSION) with false by lia.
-  rewrite C, R. reflexivity.
-Qed.
+Proof. intros W. unfold recorded. rewrite parse_encode by exact W. reflexivity. Qed.
 
-Lemma recorded_old_version h :
-  wf_hello h = true -> h_vers h < MIN_VERSION -> recorded (encode_hello h) = Ok None.
-Proof.
-  intros W V. unfold recorded. rewrite parse_encode by exact W.
-  cbn [info_of i_vers]. replace (h_vers h <? MIN_VERSION) with true by lia. reflexivity.
-Qed.
-
-(* ---------------- the coded string against the specification ---------------- *)
+(* ---------------- the coded string is the specification's ---------------- *)
 Lemma filter_same {A} (f g : A -> bool) l : (forall x, f x = g x) -> filter f l = filter g l.
 Proof. intros H; induction l as [|x l IH]; cbn [filter]; [reflexivity|]. now rewrite H, IH. Qed.
 
-Lemma ja3_code h : ja3_string (info_of h) = ja3_exts_only h.
+Lemma drop_grease_spec l : drop_grease l = no_grease l.
+Proof. apply filter_same. intros x. now rewrite grease_table_spec. Qed.
+
+Lemma ja3_is_spec h : ja3_string (info_of h) = spec_ja3 h.
 Proof.
-  unfold ja3_string, ja3_exts_only, no_grease.
+  unfold ja3_string, spec_ja3.
   cbn [info_of i_vers i_ciphers i_exts i_curves i_points].
-  do 4 f_equal. f_equal. f_equal. apply filter_same. intros x. now rewrite grease_table_spec.
+  now rewrite !drop_grease_spec.
 Qed.
 
 Lemma no_grease_id l : existsb is_grease l = false -> no_grease l = l.
@@ -440,29 +430,18 @@ Proof.
   intros H. apply orb_false_iff in H as [H1 H2]. rewrite H1. cbn [negb]. now rewrite IH.
 Qed.
 
+(* the string of the former defect (signature 1 in Check.v) differs from the specification's
+   only on hellos with GREASE among ciphers or curves *)
 Lemma exts_only_is_spec h :
   existsb is_grease (h_ciphers h) = false -> existsb is_grease (spec_groups h) = false ->
   ja3_exts_only h = spec_ja3 h.
 Proof. intros C G. unfold ja3_exts_only, spec_ja3. now rewrite (no_grease_id _ C), (no_grease_id _ G). Qed.
 
-Lemma ja3_is_spec_outside h :
-  existsb is_grease (h_ciphers h) = false -> existsb is_grease (spec_groups h) = false ->
-  ja3_string (info_of h) = spec_ja3 h.
-Proof. intros C G. rewrite ja3_code. now apply exts_only_is_spec. Qed.
-
-(* the witness read off the code *)
 Definition w_random : bytes := repeat 7 32.
 Definition w_name : bytes := [101;120;97;109;112;108;101;46;99;111;109].   (* example.com *)
 Definition w_hello (g1 g2 g3 : N) : hello :=
   mkHello 771 w_random [] [g1; 49195] [0]
           (Some [ERaw g2 []; ESni [(0, w_name)]; EGroups [g3; 29]; EPoints [0]]).
-
-Lemma ja3_refuted :
-  exists h, wf_hello h = true /\ negotiable h = true /\ MIN_VERSION <= h_vers h /\
-            ja3_string (info_of h) <> spec_ja3 h.
-Proof.
-  exists (w_hello 2570 6682 10794). repeat split; try (vm_compute; congruence).
-Qed.
 
 (* ---------------- GREASE invariance ---------------- *)
 Lemma no_grease_same a : forall b, same_mod_grease_list a b = true -> no_grease a = no_grease b.
@@ -485,24 +464,10 @@ Proof.
   now rewrite (no_grease_same _ _ S2), (no_grease_same _ _ S1), (no_grease_same _ _ S0).
 Qed.
 
-(* what the code does guarantee: GREASE among the extension types does not matter *)
-Lemma code_ext_grease_invariant h1 h2 :
-  h_vers h1 = h_vers h2 -> h_ciphers h1 = h_ciphers h2 ->
-  same_mod_grease_list (map ext_type (exts_of h1)) (map ext_type (exts_of h2)) = true ->
-  spec_groups h1 = spec_groups h2 -> spec_points h1 = spec_points h2 ->
-  ja3_string (info_of h1) = ja3_string (info_of h2).
-Proof.
-  intros V C E G P. rewrite !ja3_code. unfold ja3_exts_only.
-  now rewrite V, C, G, P, (no_grease_same _ _ E).
-Qed.
-
-Lemma grease_invariance_refuted :
-  exists h1 h2, wf_hello h1 = true /\ wf_hello h2 = true /\ same_modulo_grease h1 h2 = true /\
-                ja3_string (info_of h1) <> ja3_string (info_of h2).
-Proof.
-  exists (w_hello 2570 6682 10794), (w_hello 64250 31354 51914).
-  repeat split; try (vm_compute; congruence).
-Qed.
+(* corollary for the CODE string *)
+Lemma code_grease_invariant h1 h2 :
+  same_modulo_grease h1 h2 = true -> ja3_string (info_of h1) = ja3_string (info_of h2).
+Proof. intros H. rewrite !ja3_is_spec. now apply spec_grease_invariant. Qed.
 
 (* ---------------- record layer: any fragmentation reassembles to the message ---------------- *)
 Section Fragment.
@@ -576,13 +541,16 @@ Proof.
 Qed.
 
 Lemma served_fragment_hello h vers cuts :
-  wf_hello h = true -> negotiable h = true -> MIN_VERSION <= h_vers h -> vers < 4096 ->
+  wf_hello h = true -> vers < 4096 ->
   Forall (fun r => blen (r_payload r) <= MAX_PLAINTEXT) (fragment vers cuts (encode_hello h)) ->
-  served (fragment vers cuts (encode_hello h)) = Ok (Some (ja3_exts_only h, spec_sni h)).
+  served (fragment vers cuts (encode_hello h)) = Ok (Some (spec_ja3 h, spec_sni h)).
 Proof.
-  intros W Ng Vh V F. unfold served. rewrite read_fragment_hello by assumption.
-  rewrite <- ja3_code, <- recorded_encode by assumption. reflexivity.
+  intros W V F. unfold served. rewrite read_fragment_hello by assumption.
+  rewrite <- ja3_is_spec, <- recorded_encode by assumption. reflexivity.
 Qed.
+
+Lemma full_statement_holds : full_statement.
+Proof. intros h vers cuts W [V F]. now apply served_fragment_hello. Qed.
 
 (* ---------------- the fuel used always suffices ---------------- *)
 Lemma sni_loop_fuel : forall fuel d, (length d < fuel)%nat -> sni_loop fuel d <> SFuel.
@@ -657,8 +625,7 @@ Proof.
   destruct msg as [|t m]; [discriminate|].
   destruct t as [|p]; [discriminate|]. destruct p; try discriminate.
   unfold recorded. pose proof (parse_hello_fuel (1 :: m)).
-  destruct (parse_hello _); try congruence; try discriminate.
-  repeat match goal with |- (if ?c then _ else _) <> _ => destruct c end; discriminate.
+  destruct (parse_hello _); try congruence; discriminate.
 Qed.
 
 (* ---------------- the specification's string determines its five lists ---------------- *)
@@ -738,56 +705,13 @@ Lemma spec_ja3_inj h1 h2 : spec_ja3 h1 = spec_ja3 h2 ->
   no_grease (spec_groups h1) = no_grease (spec_groups h2) /\ spec_points h1 = spec_points h2.
 Proof. unfold spec_ja3. apply ja3_fields_inj. Qed.
 
-(* ---------------- the full statement, its two refutations, and what holds outside them ---------------- *)
-Lemma outside_findings h vers cuts :
-  wf_hello h = true -> negotiable h = true -> MIN_VERSION <= h_vers h ->
-  existsb is_grease (h_ciphers h) = false -> existsb is_grease (spec_groups h) = false ->
-  frag_ok vers cuts (encode_hello h) ->
-  served (fragment vers cuts (encode_hello h)) = Ok (Some (spec_ja3 h, spec_sni h)).
-Proof.
-  intros W Ng V C G [Fv F]. rewrite served_fragment_hello by assumption.
-  now rewrite exts_only_is_spec.
-Qed.
+(* the coded string determines the version and the four GREASE-free lists *)
+Lemma code_ja3_inj h1 h2 : ja3_string (info_of h1) = ja3_string (info_of h2) ->
+  h_vers h1 = h_vers h2 /\ no_grease (h_ciphers h1) = no_grease (h_ciphers h2) /\
+  no_grease (map ext_type (exts_of h1)) = no_grease (map ext_type (exts_of h2)) /\
+  no_grease (spec_groups h1) = no_grease (spec_groups h2) /\ spec_points h1 = spec_points h2.
+Proof. rewrite !ja3_is_spec. apply spec_ja3_inj. Qed.
 
 Lemma frag_ok_single vers msg :
   vers < 4096 -> blen msg <= MAX_PLAINTEXT -> frag_ok vers [] msg.
 Proof. intros V L. split; [exact V|]. cbn [fragment]. constructor; [exact L|constructor]. Qed.
-
-Lemma full_refuted_grease :
-  exists h, wf_hello h = true /\ negotiable h = true /\ MIN_VERSION <= h_vers h /\
-            frag_ok 769 [] (encode_hello h) /\
-            exists s, served (fragment 769 [] (encode_hello h)) = Ok (Some (s, spec_sni h)) /\
-                      s <> spec_ja3 h /\ s = ja3_exts_only h.
-Proof.
-  exists (w_hello 2570 6682 10794).
-  split; [vm_compute; reflexivity|]. split; [vm_compute; reflexivity|].
-  split; [vm_compute; congruence|].
-  split; [apply frag_ok_single; vm_compute; congruence|].
-  eexists. split; [vm_compute; reflexivity|]. split; vm_compute; congruence.
-Qed.
-
-Definition w_ssl3 : hello := mkHello 768 w_random [] [10; 5] [0] None.
-
-Lemma full_refuted_old_version :
-  exists h, wf_hello h = true /\ negotiable h = true /\ 768 <= h_vers h /\
-            existsb is_grease (h_ciphers h) = false /\ existsb is_grease (spec_groups h) = false /\
-            frag_ok 768 [] (encode_hello h) /\
-            served (fragment 768 [] (encode_hello h)) = Ok None.
-Proof.
-  exists w_ssl3. repeat split; try (vm_compute; congruence).
-  constructor; [vm_compute; congruence|constructor].
-Qed.
-
-Lemma old_version_unrecorded h vers cuts :
-  wf_hello h = true -> h_vers h < MIN_VERSION -> frag_ok vers cuts (encode_hello h) ->
-  served (fragment vers cuts (encode_hello h)) = Ok None.
-Proof.
-  intros W V [Fv F]. unfold served. rewrite read_fragment_hello by assumption.
-  rewrite recorded_old_version by assumption. reflexivity.
-Qed.
-
-Lemma full_statement_refuted : ~ full_statement.
-Proof.
-  intros F. destruct full_refuted_old_version as (h & W & Ng & V & _ & _ & Fr & S).
-  rewrite (F h 768 [] W Ng V Fr) in S. discriminate.
-Qed.
